@@ -283,7 +283,10 @@ theorem KN_update (s : Sys) (name : String) (cidrs : List Cidr) (i : Nat) (ws : 
   split
   · exact KN_releaseAll _ _ _
   · split
-    · rfl
+    · simp only
+      split
+      · rename_i c hg; exact KN_set hg (kn_addAssoc c name)
+      · rfl
     · split
       · have := KN_releaseAll i cidrs s.alloc
         cases hr : s.alloc.releaseAll i cidrs with
